@@ -134,6 +134,8 @@ def run(tier, seed):
                                                 inc["np"], env.get("OMP_NUM_THREADS"), inc["case"], timeout, {r: v["last_kind"] for r, v in ev["ranks"].items()}, mpifn, lib, {p: fr[:10] for p, fr in list(ev.get("backtraces", {}).items())[:3]})))
             elif inc["kind"] in ("slow", "slow-twice"):
                 out.inconclusive.append("np=%d case %s exceeded the watchdog (%s) while ranks were still active" % (inc["np"], inc.get("case"), inc["kind"]))
+            elif inc["kind"] == "stopped":
+                out.counters["launches_stopped_early"] = out.counters.get("launches_stopped_early", 0) + 1
             elif inc["kind"] == "crash":
                 site = engine.crash_site_from_stderr(inc.get("stderr") or "") or "rc%s" % inc.get("rc")
                 out.add_violation("%s:crash:%s:%s" % (pid, driver, site), dict(driver=driver, flavour=fl, case=inc["case"], monitor="crash", np=inc["np"], env=env, replay_special="mpi",
